@@ -112,7 +112,7 @@ type segCase struct {
 func TestReferenceIsTreeHash(t *testing.T) {
 	run := obs.Start(t, "C02")
 	defer run.Done()
-	run.Rule("contents: sizes on/around segment and chunk boundaries, identical-leaf contents, random sizes (<= 6 MiB quick, <= 40 MiB thorough); each uploaded unencrypted through the real pipeline under 6-9 write segmentations (one, byte/small or aligned/around/1 MiB, random x2, FeedPipeline short reads, data+EOF, file.ChunkPipe); reference compared with spec.TreeHash(content) and with the single-Write reference. distinct = (size class, segmentation, content kind); trivial = the single-Write case of an empty content",
+	run.Rule("contents: sizes on/around segment and chunk boundaries, identical-leaf contents, random sizes (<= 6 MiB quick, <= 24 MiB thorough); each uploaded unencrypted through the real pipeline under 6-9 write segmentations (one, byte/small or aligned/around/1 MiB, random x2, FeedPipeline short reads, data+EOF, file.ChunkPipe); reference compared with spec.TreeHash(content) and with the single-Write reference. distinct = (size class, segmentation, content kind); trivial = the single-Write case of an empty content",
 		"spec.BMT / spec.TreeHash are the definition of the format (keccak256 binary Merkle tree over 8192 zero-padded 32-byte segments, span prefix)")
 	ctx := context.Background()
 	var cts []*content
@@ -124,10 +124,10 @@ func TestReferenceIsTreeHash(t *testing.T) {
 			cts = append(cts, &content{ID: fmt.Sprintf("n%d-%s", n, k), Size: n, Kind: k})
 		}
 	}
-	for i := 0; i < run.N(16, 60); i++ {
+	for i := 0; i < run.N(16, 36); i++ {
 		cts = append(cts, &content{ID: fmt.Sprintf("rnd%d", i), Size: -1, Kind: fk.KindPRF})
 	}
-	maxRand := run.N(6<<20, 40<<20)
+	maxRand := run.N(6<<20, 24<<20)
 	for _, ct := range cts {
 		segs := []string{fk.SegOne, fk.SegRandom, fk.SegRandom + "#2", fk.SegAligned, fk.SegAround, fk.SegMiB, fk.SegFeed, fk.SegFeedEOF, fk.SegChunkPipe}
 		if ct.Size >= 0 && ct.Size <= 4097 {
@@ -213,7 +213,7 @@ type levelCase struct {
 func TestIntermediateLevelsHash(t *testing.T) {
 	run := obs.Start(t, "C02")
 	defer run.Done()
-	run.Rule("real hashtrie writer + real BMT/store short pipeline fed L random leaf references, L in {1,2,8191,8192,8193,2*8192-1..+1,3*8192+5, random <= 40*8192; 8192^2+{0,1,8192,8193} thorough}; root compared with spec.ReduceRefs. distinct = class of L relative to powers of 8192",
+	run.Rule("real hashtrie writer + real BMT/store short pipeline fed L random leaf references, L in {1,2,8191,8192,8193,2*8192-1..+1,3*8192+5, random <= 40*8192; 8192^2+{0,1,8193} thorough}; root compared with spec.ReduceRefs. distinct = class of L relative to powers of 8192",
 		"leaf references are random hashes (the leaf hashing itself is covered by TestReferenceIsTreeHash)")
 	B := int64(spec.Branches)
 	var cases []levelCase
@@ -221,11 +221,11 @@ func TestIntermediateLevelsHash(t *testing.T) {
 		cases = append(cases, levelCase{fmt.Sprintf("L%d", l), l})
 	}
 	if run.Thorough() {
-		for _, l := range []int64{B * B, B*B + 1, B*B + B, B*B + B + 1} {
+		for _, l := range []int64{B * B, B*B + 1, B*B + B + 1} {
 			cases = append(cases, levelCase{fmt.Sprintf("L%d", l), l})
 		}
 	}
-	for i := 0; i < run.N(10, 30); i++ {
+	for i := 0; i < run.N(10, 20); i++ {
 		cases = append(cases, levelCase{fmt.Sprintf("rnd%d", i), -1})
 	}
 	ctx := context.Background()
